@@ -355,6 +355,15 @@ def rule_alphabets(model, rep):
         rep.check(ok, R2, site("b64s_decode", un), "2 -> '==', 3 -> '=', 1 -> ValueError", "missing padding is restored by length mod 4; length 1 mod 4 raises ValueError",
                   witness="unpadded base64 of some lengths fails to decode or decodes with the wrong padding")
         rep.check((f"{offvar} = len(data) & 3" in t) or (f"{offvar} = len(data) % 4" in t), R2, site("b64s_decode", un), "len mod 4", "offset = len mod 4")
+        # binascii.a2b_base64() in its default mode *skips* bytes outside the alphabet and stops at the first complete '=' group, so the
+        # helper must reject such input itself (or ask for strict_mode) before handing it over
+        a2b = [c for c in walk_no_nested(fn) if isinstance(c, ast.Call) and ast.unparse(c.func).split(".")[-1] == "a2b_base64"]
+        strict = any(k.arg == "strict_mode" and ast.unparse(k.value) == "True" for c in a2b for k in c.keywords)
+        guard = [n for n in walk_no_nested(fn) if isinstance(n, ast.If) and n.body and isinstance(n.body[-1], ast.Raise) and ("translate(None" in ast.unparse(n.test) or "not in" in ast.unparse(n.test) or "fullmatch" in ast.unparse(n.test))
+                 and a2b and n.lineno < a2b[0].lineno]
+        rep.check(len(a2b) == 1 and (strict or bool(guard)), R2, site("b64s_decode", un) + " alphabet", "a2b_base64(data)  # non-strict: skips foreign bytes, ignores data after '='",
+                  "bytes outside the base64 alphabet (and data after a padding group) are refused, not skipped",
+                  witness="b64s_decode(b'YW@@@@Jj') == b64s_decode(b'YWJj') == b'abc': pbkdf2_sha256.verify() accepts a hash whose salt field was altered with junk characters")
         fn = model.func(un, "ab64_encode")
         rep.check(returns(fn) == ["b64s_encode(data).replace(b'+', b'.')"], R2, site("ab64_encode", un), "; ".join(returns(fn)), "ab64 encode = base64 with '+' replaced by '.'",
                   witness="pbkdf2 hashes contain '+' / the wrong character is replaced")
